@@ -152,6 +152,27 @@ def run(F, R, ctx):
            and any(e[1] == "LifetimeGuard" and e[2] == "count" for _, _, e in d.events("fld")),
            "LifetimeGuard has no destructor calling OpaqueReferenceNursery::free_n(self.count): lent references stay "
            "reachable from scripts after the scope ends", "%s:%s" % (lg["file"], lg["line"]), sample=True)
+    fr = F.one(r"\{impl OpaqueReferenceNursery\}::free_n$")
+    flds = set(e[2] for _, e in lib.family_events(F, fr, "fld") if e[1] == "OpaqueReferenceNursery")
+    pops = [(c_, b_) for c_ in [fr] + [F.fns[e[1]] for _, _, e in fr.events("closure") if e[1] in F.fns]
+            for _, b_ in c_.calls() if re.search(r"Vec<T,A>\}::pop$", b_["callee"])]
+    cond = False
+    for c_, b_ in pops:
+        d_ = re.match(r"_\d+", b_.get("dest") or "")
+        if not d_:
+            continue
+        t_ = lib.tainted_locals(c_, [d_.group(0)])
+        for blk in c_.blocks:
+            if blk["k"] == "switch" and not blk["c"]:
+                loc_ = re.match(r"_\d+", blk.get("place", "").strip("(*)"))
+                if loc_ and loc_.group(0) in t_:
+                    cond = True
+    R.inst("C20.c", "OpaqueReferenceNursery::free_n releases both tables unconditionally",
+           {"memory", "weak_values"} <= flds and len(pops) >= 2 and not cond,
+           "OpaqueReferenceNursery::free_n no longer pops `count` entries from both the rooted-pointer table and the weak-value "
+           "table unconditionally (a control decision depends on what a pop returned, or a table is not popped): after the "
+           "scope ends a lent reference can stay registered, so a script can still reach a host object that is gone",
+           fr.loc(), sample={"tables": sorted(flds), "pops": len(pops), "pop_result_decides_control": cond})
     for ty in ("LifetimeGuard",):
         cl = [im for im in F.impls if im["self"].split("<")[0] == ty and im["trait"] and re.search(r"::(Clone|Copy)$", im["trait"])]
         R.inst("C20.c", "%s is not Clone/Copy" % ty, not cl, "%s can be duplicated: the first copy's drop revokes references "
